@@ -90,7 +90,8 @@ def _raises_on_return_code(fn: FuncInfo) -> bool:
         t = g.test
         if isinstance(t, (ast.Name, ast.Subscript)):
             return True
-        if isinstance(t, ast.Compare) and len(t.ops) == 1 and isinstance(t.ops[0], (ast.NotEq, ast.Gt)) and isinstance(t.comparators[0], ast.Constant) and t.comparators[0].value == 0:
+        # `!= 0` only: `> 0` lets the negative return code of a process killed by a signal pass as success
+        if isinstance(t, ast.Compare) and len(t.ops) == 1 and isinstance(t.ops[0], ast.NotEq) and isinstance(t.comparators[0], ast.Constant) and t.comparators[0].value == 0:
             return True
     return False
 
